@@ -98,6 +98,8 @@ class Spec(core.PropSpec):
             # the loader class only makes sense where the sampler itself follows the reference
             self._sampler_level(dict(plan, via="batch_sampler"), w, ref, site, out)
             if not out.violations and not out.rejected:
+                if any(c["kind"] == "epochperm" for c in w["configs"]):
+                    ref = T.reference(w, side_epochs=T.side_epochs_of(out.events))
                 out.events = []
                 self._loader_level(plan, w, ref, site, out)
         out.nontrivial = n_side > 0 and (plan["level"] == "sampler" or plan.get("K", 0) >= 1)
@@ -118,6 +120,8 @@ class Spec(core.PropSpec):
         if not terminated:
             out.violate("C05:no-termination", site, f"more than {cap} indices")
             return
+        if any(c["kind"] == "epochperm" for c in w["configs"]):
+            ref = T.reference(w, side_epochs=T.side_epochs_of(hist))  # a side pass is the sampler's own iteration, whatever epoch it holds
         d = T.first_diff(hist, ref)
         if d:
             # classify by comparing the side-pass schedule (which passes, where)
